@@ -163,6 +163,23 @@ func loadEngine(repo string, patterns []string) (*Engine, error) {
 	if err != nil {
 		return nil, err
 	}
+	// extern contracts: `interface pkgname.Type.Method` (or callback) declares the
+	// assumed contract of a type of another package (a dependency); it is keyed by
+	// that package's path, its clauses are evaluated in the declaring package's scope
+	for key, ct := range e.cs.Funcs {
+		if !ct.IsIface || strings.Count(ct.Name, ".") != 2 {
+			continue
+		}
+		i := strings.Index(ct.Name, ".")
+		p := e.pkgByName(ct.Name[:i])
+		if p == nil {
+			return nil, fmt.Errorf("%s:%d: extern contract %s: unknown package %q", ct.File, ct.Line, ct.Name, ct.Name[:i])
+		}
+		delete(e.cs.Funcs, key)
+		ct.TypePkg = p.Path()
+		ct.Name = ct.Name[i+1:]
+		e.cs.Funcs[p.Path()+"::"+ct.Name] = ct
+	}
 	for fn := range ssautil.AllFunctions(prog) {
 		pp := funcPkgPath(fn)
 		if !strings.HasPrefix(pp, e.modulePath) {
@@ -177,7 +194,94 @@ func loadEngine(repo string, patterns []string) (*Engine, error) {
 		}
 		e.funcs[key] = fn
 	}
+	// methods of unexported named types are not roots of AllFunctions
+	for _, sp := range prog.AllPackages() {
+		if !strings.HasPrefix(sp.Pkg.Path(), e.modulePath) {
+			continue
+		}
+		for _, mem := range sp.Members {
+			tm, ok := mem.(*ssa.Type)
+			if !ok {
+				continue
+			}
+			named, ok := tm.Type().(*types.Named)
+			if !ok || named.TypeParams() != nil || types.IsInterface(named) {
+				continue
+			}
+			for _, T := range []types.Type{named, types.NewPointer(named)} {
+				mset := prog.MethodSets.MethodSet(T)
+				for i := 0; i < mset.Len(); i++ {
+					fn := prog.MethodValue(mset.At(i))
+					if fn == nil || fn.Synthetic != "" {
+						continue
+					}
+					key := funcPkgPath(fn) + "::" + funcRelName(fn)
+					if _, ok := e.funcs[key]; !ok {
+						e.funcs[key] = fn
+					}
+				}
+			}
+		}
+	}
 	return e, nil
+}
+
+// usable: the (unscoped) clauses of a function contract can be evaluated against
+// the function's current signature. A contract that cannot (the function was
+// renamed or its parameters changed) is reported as stale where it is verified
+// and is ignored at call sites, where the callee is then followed like any
+// function without a contract, so that callers' obligations are still decided.
+func (e *Engine) usable(ct *Contract) bool {
+	if ct.checkedUsable {
+		return !ct.unusable
+	}
+	ct.checkedUsable = true
+	if ct.IsIface {
+		return true
+	}
+	fn := e.funcs[ct.PkgPath+"::"+ct.Name]
+	if fn == nil {
+		return true // no such function: nothing can call it
+	}
+	x := &Exec{e: e, c: NewCtx(), reg: &heapReg{sorts: map[string]Sort{}}, obls: map[string]*Oblig{}, top: fn, ct: ct,
+		inlined: map[string]bool{}, havocked: map[string]bool{}, usedContracts: map[string]bool{},
+		knownNonNil: map[string]bool{}, globalsSeen: map[string]bool{}, rangeOf: map[*ssa.Range]Val{}}
+	defer func() {
+		if r := recover(); r != nil {
+			ct.unusable = true
+		}
+	}()
+	st0 := x.newState()
+	x.initGhosts(st0, ct.PkgPath)
+	names := map[string]Val{}
+	for _, p := range fn.Params {
+		names[p.Name()] = freshVal(x.c, "arg_"+p.Name(), p.Type())
+	}
+	for _, fa := range ct.Forall {
+		names[fa.Name] = freshVal(x.c, "forall_"+fa.Name, ghostType(fa.Type))
+	}
+	for _, fv := range fn.FreeVars {
+		if pt, isPtr := fv.Type().Underlying().(*types.Pointer); isPtr {
+			names[fv.Name()] = freshVal(x.c, "fv_"+fv.Name(), pt.Elem())
+		}
+	}
+	res := x.freshResults(fn.Signature, "res")
+	env := &specEnv{x: x, names: names, st: st0, old: st0, pkg: e.typesPkg(ct.PkgPath), sig: fn.Signature, results: res}
+	x.specDepth++
+	for _, cl := range ct.Req {
+		if len(cl.Scope) == 0 {
+			x.evalBool(cl.Expr, env, TTrue)
+		}
+	}
+	for _, cl := range ct.Ens {
+		if len(cl.Scope) == 0 {
+			x.evalBool(cl.Expr, env, TTrue)
+		}
+	}
+	for _, cl := range ct.Sets {
+		x.evalSpec(cl.Expr, env, TTrue)
+	}
+	return true
 }
 
 // verifyContract generates the obligations of one function under contract.
@@ -213,6 +317,20 @@ func (e *Engine) verifyContract(ct *Contract) (x *Exec, err error) {
 	names := map[string]Val{}
 	var args []Val
 	for _, p := range fn.Params {
+		if ch, ok := p.Type().Underlying().(*types.Chan); ok {
+			st0.ghost["recv$"+p.Name()] = freshVal(x.c, "recv0_"+p.Name(), ch.Elem())
+		}
+	}
+	for _, fv := range fn.FreeVars {
+		t := fv.Type()
+		if pt, ok := t.Underlying().(*types.Pointer); ok {
+			t = pt.Elem()
+		}
+		if ch, ok := t.Underlying().(*types.Chan); ok {
+			st0.ghost["recv$"+fv.Name()] = freshVal(x.c, "recv0_"+fv.Name(), ch.Elem())
+		}
+	}
+	for _, p := range fn.Params {
 		v := freshVal(x.c, "arg_"+p.Name(), p.Type())
 		x.wellFormed(v, st0)
 		args = append(args, v)
@@ -224,7 +342,7 @@ func (e *Engine) verifyContract(ct *Contract) (x *Exec, err error) {
 	for _, fv := range fn.FreeVars {
 		v := freshVal(x.c, "fv_"+fv.Name(), fv.Type())
 		x.wellFormed(v, st0)
-		if len(v.L) == 1 && v.L[0].Sort == SRef {
+		if len(v.L) == 1 && isRefType(v.T) {
 			x.c.Assume(Not(Eq(v.L[0], BVLit(0, 32))))
 		}
 		fvs = append(fvs, v)
@@ -271,6 +389,17 @@ func (e *Engine) verifyContract(ct *Contract) (x *Exec, err error) {
 			continue
 		}
 		liveReach = append(liveReach, r.reach)
+		for _, cl := range ct.Sets {
+			env2 := &specEnv{x: x, names: names, st: r.st, old: entry, pkg: pkg, results: r.vals, sig: fn.Signature}
+			x.specDepth++
+			gv, ok := r.st.ghost[cl.Label]
+			if !ok {
+				specFail("sets: unknown ghost %q", cl.Label)
+			}
+			nv := x.materialize(x.evalSpec(cl.Expr, env2, r.reach), gv.T)
+			x.specDepth--
+			r.st.ghost[cl.Label] = nv
+		}
 		for k, cl := range ct.Ens {
 			if cl.Trusted {
 				x.c.Note("trusted postcondition (assumed at call sites, not checked against the body): %s: %s", ct.Name, cl.Text)
@@ -360,7 +489,7 @@ func (x *Exec) wellFormed(v Val, st *State) {
 	sh := shape(v.T)
 	for i, l := range sh {
 		switch {
-		case l.Sort == SRef:
+		case l.isRef():
 			x.c.Assume(Op("bvult", SBool, v.L[i], st.ctr))
 		case strings.HasSuffix(l.Path, "#len"):
 			x.c.Assume(Op("bvsle", SBool, BVLit(0, 64), v.L[i]))
@@ -491,6 +620,14 @@ func (x *Exec) frameObligations(ct *Contract, fn *ssa.Function, env *specEnv, en
 	for _, a := range ct.Assigns {
 		if g, ok := ghostName(a); ok {
 			allowed[g] = true
+		}
+	}
+	for _, cl := range ct.Sets {
+		allowed[cl.Label] = true
+	}
+	for g := range entry.ghost {
+		if strings.HasPrefix(g, "recv$") {
+			allowed[g] = true // channel history, not a declared ghost
 		}
 	}
 	for g, v0 := range entry.ghost {
